@@ -111,6 +111,8 @@ class ContDomain(Domain):
         self.unknown_cmp = []
         self.ctor = False
         self.fresh = itertools.count()
+        self.ord_vals = {}      # 'L ? R' -> (L value, R value) of every order atom consulted
+        self.imprecise = []     # (kind, site): places where the evaluation lost exactness (unsummarised loops)
 
     # ---- initial values --------------------------------------------------------------------------------------------------
     def init_field(self, path, node):
@@ -169,7 +171,8 @@ class ContDomain(Domain):
                 rl = as_lin(r) if not isinstance(r, (ModVal, MinVal)) else r
                 if isinstance(r, ModVal): return Ptr(l.base, ('mod', l.off, r)) if False else Ptr(l.base, r if l.off == Lin.const(0) else Unknown('ptr+mod'))
                 if isinstance(r, MinVal): return Ptr(l.base, r if l.off == Lin.const(0) else Unknown('ptr+min'))
-                if isinstance(r, Ptr) and op == '-': return l.off - r.off if l.base == r.base else Unknown('ptrdiff')
+                if isinstance(r, Ptr) and op == '-' and l.base == r.base and isinstance(r.off, Lin) and r.off == Lin.const(0) and isinstance(l.off, (ModVal, MinVal)): return l.off
+                if isinstance(r, Ptr) and op == '-': return (l.off - r.off) if (l.base == r.base and isinstance(l.off, Lin) and isinstance(r.off, Lin)) else Unknown('ptrdiff')
                 if rl is not None: return Ptr(l.base, (l.off + rl) if op == '+' else (l.off - rl)) if isinstance(l.off, Lin) else Ptr(l.base, Unknown('off'))
             if isinstance(l, MinVal) or isinstance(r, MinVal):
                 return Unknown(('minarith', n.id, op, repr(l), repr(r)))
@@ -268,6 +271,7 @@ class ContDomain(Domain):
         key = self.key_for(l, r)
         v = self.rows.get(('ord', key))
         self.consulted.add(('ord', key))
+        self.ord_vals[key] = (l, r)
         if v is None:
             self.unknown_cmp.append((key, n, None)); return None
         return OPF[op]({'<': -1, '=': 0, '>': 1}[v], 0)
@@ -371,6 +375,21 @@ class ContDomain(Domain):
             self.c_event(st, n, 'realloc', old, a, p); return p
         if base == 'free':
             self.c_event(st, n, 'free', rv(0)); return None
+        if q in ('std::construct_at', 'std::ranges::construct_at') and args:
+            tgt = rv(0)
+            if isinstance(tgt, ElemRef): tgt = tgt.ptr if tgt.ptr is not None else tgt
+            src = []
+            for i in range(1, len(args)):
+                v = vals[i]
+                if isinstance(v, Ref):
+                    y = st.store.get(v.loc)
+                    if isinstance(y, ElemRef): v = y
+                src.append(v)
+            self.c_event(st, n, 'elem', 'construct', tgt, src); return tgt
+        if q in ('std::destroy_at', 'std::ranges::destroy_at') and args:
+            tgt = rv(0)
+            if isinstance(tgt, ElemRef): tgt = tgt.ptr if tgt.ptr is not None else tgt
+            self.c_event(st, n, 'elem', 'destroy', tgt, None); return None
         if base in ('memcpy', 'memmove'):
             self.c_event(st, n, 'memcpy', rv(0), rv(1), rv(2)); return rv(0)
         if base == 'min' and len(args) == 2:
@@ -386,6 +405,7 @@ class ContDomain(Domain):
             if a is not None and b is not None:
                 s = self.sign_of(a - b)
                 if s is not None: return a if s >= 0 else b
+                self.unknown_cmp.append((repr(a - b), n, a - b))      # decided per row (row discovery splits on the order of the operands)
             return Unknown(('max', n.id))
         if q == 'std::swap' and len(args) == 2:
             la = ex.loc_of(args[0], st, fr); lb = ex.loc_of(args[1], st, fr)
@@ -439,9 +459,13 @@ class ContDomain(Domain):
 
     # ---- loops ------------------------------------------------------------------------------------------------------------------------
     def summarise_loop(self, ex, loop, st, fr):
-        if loop.k == 'for': return self._sum_for(ex, loop, st, fr)
-        if loop.k == 'rangefor': return self._sum_rangefor(ex, loop, st, fr)
-        return None
+        r = None
+        if loop.k == 'for': r = self._sum_for(ex, loop, st, fr)
+        elif loop.k == 'rangefor': r = self._sum_rangefor(ex, loop, st, fr)
+        if r is None:
+            # the loop is unrolled a bounded number of times: statements about *all* iterations are no longer exact
+            self.imprecise.append(('loop', loop.shortloc()))
+        return r
 
     def _body_effects(self, ex, body, st, fr, binds):
         """evaluate the loop body once with the bindings in `binds` (decl -> value) on a cloned state; returns the
@@ -474,10 +498,18 @@ class ContDomain(Domain):
         if init is None or cond is None or inc is None or body is None: return None
         if init.k != 'decl' or len(init.vars) != 1: return None
         iv = init.vars[0]['decl']
-        if not (cond.k == 'binop' and cond.op == '<' and cond.n('lhs') is not None and cond.n('lhs').k == 'ref' and cond.n('lhs').decl == iv): return None
-        if not (inc.k == 'unop' and inc.op == '++' and inc.n('sub') is not None and inc.n('sub').k == 'ref' and inc.n('sub').decl == iv): return None
+        is_iv = lambda x: x is not None and x.k == 'ref' and x.decl == iv
+        # i < b, i != b, b > i, b != i   (for `!=` the start must not exceed the bound: checked below)
+        if cond.k != 'binop': return None
+        if cond.op in ('<', '!=') and is_iv(cond.n('lhs')): bound_node = cond.n('rhs')
+        elif cond.op in ('>', '!=') and is_iv(cond.n('rhs')): bound_node = cond.n('lhs')
+        else: return None
+        ne_form = cond.op == '!='
+        inc_ok = (inc.k == 'unop' and inc.op == '++' and is_iv(inc.n('sub'))) or \
+                 (inc.k == 'binop' and inc.op == '+=' and is_iv(inc.n('lhs')) and inc.n('rhs') is not None and inc.n('rhs').k == 'int' and inc.n('rhs').v == 1)
+        if not inc_ok: return None
         a = as_lin(st.store.get(('l', fr.id, iv)))
-        b = ex._rvalue(cond.n('rhs'), st, fr)
+        b = ex._rvalue(bound_node, st, fr)
         if isinstance(b, Ref): b = ex.read(b.loc, st)
         bl = as_lin(b)
         if a is None or bl is None: return None
@@ -485,6 +517,7 @@ class ContDomain(Domain):
             s = self.sign_of(bl - a)
             if s is None:
                 self.unknown_cmp.append((repr(bl - a), loop, bl - a)); return None
+            if s < 0 and ne_form: return None       # `i != b` starting above b does not terminate at b
             if s <= 0:
                 return ('empty', repr(a), repr(bl))
         isym = f'i#{next(self.fresh)}'
@@ -549,6 +582,13 @@ class ContDomain(Domain):
                 if kk is not None and kk.t.get(isym) == 1:
                     rest = Lin({s: c for s, c in kk.t.items() if s != isym}, kk.c)
                     return ('logical', s0.obj, rest + a, rest + b)
+            if s0.ptr is not None and isinstance(s0.ptr.off, ModVal) and isinstance(s0.ptr.off.inner, Lin) and s0.ptr.off.inner.t.get(isym) == 1 and s0.ptr.base.endswith('data0'):
+                # physical slot (pos + k) mod cap of an object = its logical element k
+                obj = s0.ptr.base[:-len('data0')].rstrip('.') or 'this'
+                pre = '' if obj == 'this' else obj + '.'
+                inn = s0.ptr.off.inner
+                rest = Lin({s: c for s, c in inn.t.items() if s != isym}, inn.c) - Lin.sym(pre + 'P')
+                return ('logical', obj, rest + a, rest + b)
             if s0.ptr is not None and isinstance(s0.ptr.off, Lin) and s0.ptr.off.t.get(isym) == 1:
                 rest = Lin({s: c for s, c in s0.ptr.off.t.items() if s != isym}, s0.ptr.off.c)
                 return ('raw', s0.ptr.base, rest + a, rest + b)
@@ -592,3 +632,30 @@ class ContDomain(Domain):
         if out is None: return None
         for loc, l1 in subst.items(): st.store[loc] = l1 + count
         return ('range-for', repr(count))
+
+
+def concrete(v, env):
+    """value of an abstract index expression under a valuation of the entry symbols (None if it contains anything else)"""
+    if isinstance(v, bool): return int(v)
+    if isinstance(v, int): return v
+    if isinstance(v, Lin):
+        t = v.c
+        for k, c in v.t.items():
+            if k not in env: return None
+            t += c * env[k]
+        return t
+    if isinstance(v, ModVal):
+        a = concrete(v.inner, env); b = concrete(v.cap, env)
+        return None if a is None or not b else a % b
+    if isinstance(v, ModPlus):
+        a = concrete(v.mod, env); k = concrete(v.k, env)
+        return None if a is None or k is None else a + k
+    if isinstance(v, Rem):
+        a = concrete(v.a, env); b = concrete(v.b, env)
+        if a is None or not b: return None
+        r = abs(a) % abs(b)
+        return r if a >= 0 else -r
+    if isinstance(v, MinVal):
+        a = concrete(v.a, env); b = concrete(v.b, env)
+        return None if a is None or b is None else min(a, b)
+    return None
